@@ -1,5 +1,7 @@
 import NetqasmVerif.Driver.Json
 import NetqasmVerif.Model.Epr
+import NetqasmVerif.Model.EprReq
+import NetqasmVerif.Lemmas.EprReqSpec
 open Lean
 namespace NQ.Drv
 open NQ.Epr
@@ -74,6 +76,75 @@ def replay (okf : Nat) : State → List Action → List Json → List Json × Bo
         | _ => o
       replay okf s' as (o :: acc)
 
+
+open NQ.EprReq in
+def fvalToJson : FVal → Json
+  | .int v => Json.arr #[Json.str "int", toJson v]
+  | .reqType v => Json.arr #[Json.str "RequestType", toJson v]
+  | .randBasis v => Json.arr #[Json.str "RandomBasis", toJson v]
+
+open NQ.EprReq in
+def kwToJson (kw : List (String × FVal)) : Json :=
+  Json.arr (kw.map (fun (f, v) => Json.arr #[Json.str f, fvalToJson v])).toArray
+
+def triple? (j : Json) : Option (Int × Int × Int) := do
+  match ← jInts? j with
+  | [a, b, c] => pure (a, b, c)
+  | _ => none
+
+def optArr? (j : Json) : Option (List (Option Int)) := do
+  let a ← jArr? j
+  a.toList.mapM optInt?
+
+open NQ.EprReq NQ.Gen.Epr in
+def handleEprReq (op : String) (j : Json) : Option Json :=
+  if op == "eprreq.request" then do
+    let tp ← (jField? j "tp").bind jInt?
+    let remote ← (jField? j "remote").bind jInt?
+    let purpose ← (jField? j "purpose").bind jInt?
+    let p : ReqParams := {
+      number := ← (jField? j "number").bind jInt?,
+      timeUnit := ← (jField? j "timeUnit").bind jInt?,
+      maxTime := ← (jField? j "maxTime").bind jInt?,
+      rbl := ← (jField? j "rbl").bind optInt?,
+      rbr := ← (jField? j "rbr").bind optInt?,
+      rotL := ← (jField? j "rotL").bind triple?,
+      rotR := ← (jField? j "rotR").bind triple? }
+    let arr := serializeReq tp p
+    pure (Json.mkObj [
+      ("arr", match arr with | some a => arrToJson a | none => Json.null),
+      ("req", match arr.bind (getCreateRequest remote purpose) with | some kw => kwToJson kw | none => Json.null),
+      ("expected", kwToJson (expectedCreate tp remote purpose p))])
+  else if op == "eprreq.getcreate" then do
+    let remote ← (jField? j "remote").bind jInt?
+    let purpose ← (jField? j "purpose").bind jInt?
+    let arr ← (jField? j "arr").bind optArr?
+    pure (Json.mkObj [("req", match getCreateRequest remote purpose arr with
+      | some kw => kwToJson kw | none => Json.null)])
+  else if op == "eprreq.handles" then do
+    -- store the responses, then read every handle attribute of every pair through the model indices
+    let rsJ ← (jField? j "rs").bind jArr?
+    let rs ← rsJ.toList.mapM jInts?
+    let kind ← (jField? j "kind").bind jStr?
+    let n := rs.length
+    match storeAll okFieldsExec (List.replicate (n * okFieldsExec) none) 0 rs with
+    | none => pure (Json.mkObj [("vals", Json.null)])
+    | some arr =>
+      let attrs : List String :=
+        if kind == "keep" then ["qubit_id", "remote_node_id", "generation_duration", "raw_bell_state"]
+        else if kind == "measure" then ["raw_measurement_outcome", "remote_node_id", "generation_duration", "raw_bell_state"]
+        else okK
+      let idxOf (attr : String) (i : Nat) : Option Nat :=
+        if kind == "keep" then keepHandleIndex attr i
+        else if kind == "measure" then measureHandleIndex attr i
+        else some (entInfoIndex (okK.idxOf attr) i)
+      let vals := (List.range n).flatMap fun i => attrs.map fun a =>
+        Json.arr #[toJson i, Json.str a, match (idxOf a i).bind (fun ix => arr[ix]?) with
+          | some (some v) => toJson v
+          | _ => Json.null]
+      pure (Json.mkObj [("vals", Json.arr vals.toArray), ("arr", arrToJson arr)])
+  else none
+
 def handleEpr (op : String) (j : Json) : Option Json :=
   if op == "epr.run" then do
     let okf ← (jField? j "okf").bind jNat?
@@ -82,6 +153,6 @@ def handleEpr (op : String) (j : Json) : Option Json :=
     let acts ← acts.toList.mapM actionOfJson
     let (obs, raised) := replay okf (Epr.init node) acts []
     pure (Json.mkObj [("obs", Json.arr obs.toArray), ("raised", toJson raised)])
-  else none
+  else handleEprReq op j
 
 end NQ.Drv
